@@ -18,17 +18,25 @@ Differences from the XMI statement, forced by the JSON passes (evaluated instanc
   under its id" holds for the state after the structure pass (`fsPass_fss_ids`, the clause of `loadJson_reseeds` about
   `s.heap`), and for the final heap under the hypothesis that no element has a member `@xmiID` (`loadJson_keeps_ids`);
   the bound on the ids of all created objects (the clause about `ld.heap`) holds unconditionally;
-* sofaNum: `nextSofaNum` is above the sofaNum of every *view* created from a sofa of the document, not above every
-  sofaNum the document mentions — a second sofa element with the name of an existing view is applied to that view and
-  its sofaNum is ignored (`docDup`: sofaNums 1, 2, 7 are mentioned, `nextSofaNum = 3`);
+* duplicate sofa names: a second sofa element with the name of an existing view other than `_InitialView` is applied to
+  that view, which keeps its sofa id and sofaNum (`cas.get_view(name)` in `_get_or_create_view`; the sofa is registered
+  again under its old id): neither the id nor the sofaNum of such an element is looked at.  `docDup` (sofa elements
+  1 `_InitialView`, 2 `v`, 3 `v` with sofaNums 1, 2, 7): the view `v` keeps sofa id 2 / sofaNum 2, `nextXid = 3`,
+  `nextSofaNum = 3` — model and Python agree (Python: `cas.add` of a new annotation then assigns id 3).  Hence
+  - the bound on the ids of the *sofa* elements of the document needs `SofaNamesDistinct doc.fss` (`Spec/JsonDoc.lean`:
+    two sofa elements with the same name name the initial view); the old unconditional clause
+    `∀ j ∈ doc.fss, ∃ i, j.id = some i ∧ i < ld.cas.nextXid` is false on `docDup` (`IdsDemo.docDup_not_below`).  This is
+    not a violation of C09: nothing that was loaded carries the ignored id 3 (the clauses about the id table, the heap
+    and the views hold unconditionally), a fresh id 3 collides with nothing;
+  - `nextSofaNum` is above the sofaNum of every *view* created from a sofa of the document, not above every sofaNum the
+    document mentions;
+  a second element for `_InitialView` replaces the sofa id and sofaNum of the initial view (`docDupInit`);
 * as for XMI (finding I5) the implicit initial view of a document without an `_InitialView` sofa keeps sofa id 1 /
   sofaNum 1 (`docEmpty`: both generators restart at 1): the statement about views speaks about the sofas of the document.
 
-Model note: for a second sofa element with the name of an existing view other than `_InitialView` the model's
-`parseSofa` overwrites the sofa id with the element's id, whereas `json.py` (`_get_or_create_view`) keeps the old sofa
-and registers it again under its old id; the document-level clause `∀ j ∈ doc.fss, ∃ i, j.id = some i ∧ i < nextXid` is
-therefore, for the real code, a statement about documents whose sofa names are distinct (Python on `docDup`: the view `v`
-keeps sofa id 2, next id 3, and the document mentions id 3; model: sofa id 3, `nextXid = 4`).
+Model history: until the repair of `parseSofa` (it now follows `_get_or_create_view`) the model overwrote the sofa id of an
+existing non-initial view with the id of the second element (`docDup`: sofa id 3, `nextXid = 4`), which made the old
+clause provable for the model but not true of the code.
 -/
 import CassisModel.Proofs.JsonIdsLoad
 import CassisModel.Proofs.JsonIdsKeep
@@ -75,8 +83,10 @@ theorem loadJson_reseeds (K : Consts) (tsArg : TypeSystem) (tsIdx ci : Nat) (len
       fsPass K ts tsIdx doc.fss s1 = .ok s ∧ JBounded s ∧
       -- the generators
       s.maxId + 1 ≤ ld.cas.nextXid ∧ s.maxNum + 1 ≤ ld.cas.nextSofaNum ∧
-      -- every element of the document (structure or sofa) has an id, below the generator
-      (∀ j ∈ doc.fss, ∃ i : Int, j.id = some i ∧ i < ld.cas.nextXid) ∧
+      -- every element of the document has an id; it is below the generator for the structures, and for the sofas if no
+      -- two sofa elements name the same non-initial view
+      -- (old clause, false on `docDup`: `∀ j ∈ doc.fss, ∃ i : Int, j.id = some i ∧ i < ld.cas.nextXid`)
+      (∀ j ∈ doc.fss, ∃ i : Int, j.id = some i ∧ (j.ty ≠ SOFA ∨ SofaNamesDistinct doc.fss → i < ld.cas.nextXid)) ∧
       -- every id in the id table is below the generator
       (∀ q ∈ s.fss, q.1 < ld.cas.nextXid) ∧
       -- every registered structure was created under its id
@@ -111,6 +121,7 @@ The load succeeds, `nextXid = 9`, `nextSofaNum = 4`; the hypothesis of `loadJson
 example : IdsDemo.summary (loadJson Xmi.Demo.K Xmi.Demo.demoTS' 0 0 true false [] IdsDemo.doc1) =
     some ⟨9, 4, [("_InitialView", 1, 1), ("v", 8, 3)], [some 5, some 6]⟩ := IdsDemo.doc1_loads
 example : ∀ j ∈ IdsDemo.doc1.fss, ∀ p ∈ j.feats, p.1 ≠ "@xmiID" := IdsDemo.doc1_nox
+example : SofaNamesDistinct IdsDemo.doc1.fss := IdsDemo.doc1_distinct
 
 /-- the instances behind the differences listed in the header -/
 example : IdsDemo.summary (loadJson Xmi.Demo.K Xmi.Demo.demoTS' 0 0 true false [] IdsDemo.docView) =
@@ -120,7 +131,12 @@ example : IdsDemo.summary (loadJson Xmi.Demo.K Xmi.Demo.demoTS' 0 0 false false 
 example : IdsDemo.summary (loadJson Xmi.Demo.K Xmi.Demo.demoTS' 0 0 true false [] IdsDemo.docDangling2) =
     some ⟨7, 2, [("_InitialView", 1, 1)], [some 6]⟩ := IdsDemo.docDangling2_loads
 example : IdsDemo.summary (loadJson Xmi.Demo.K Xmi.Demo.demoTS' 0 0 false false [] IdsDemo.docDup) =
-    some ⟨4, 3, [("_InitialView", 1, 1), ("v", 3, 2)], []⟩ := IdsDemo.docDup_loads
+    some ⟨3, 3, [("_InitialView", 1, 1), ("v", 2, 2)], []⟩ := IdsDemo.docDup_loads
+example : ∃ ld, loadJson Xmi.Demo.K Xmi.Demo.demoTS' 0 0 false false [] IdsDemo.docDup = .ok ld ∧
+    ∃ j ∈ IdsDemo.docDup.fss, j.id = some 3 ∧ ¬ (3 < ld.cas.nextXid) := IdsDemo.docDup_not_below
+example : ¬ SofaNamesDistinct IdsDemo.docDup.fss := IdsDemo.docDup_not_distinct
+example : IdsDemo.summary (loadJson Xmi.Demo.K Xmi.Demo.demoTS' 0 0 false false [] IdsDemo.docDupInit) =
+    some ⟨6, 5, [("_InitialView", 5, 4)], []⟩ := IdsDemo.docDupInit_loads
 example : IdsDemo.summary (loadJson Xmi.Demo.K Xmi.Demo.demoTS' 0 0 false false [] IdsDemo.docEmpty) =
     some ⟨1, 1, [("_InitialView", 1, 1)], []⟩ := IdsDemo.docEmpty_loads
 
